@@ -89,11 +89,12 @@ theorem objView_append_new (x : Nat) (e e' : EP) (o' : Obj) (h : e'.objs = e.obj
       rw [this, List.getElem?_eq_none h1]
 
 /-- A dead flow stays dead under any step of `a` that does not hand it a slot. -/
-theorem dead_step {x : Nat} {p : PS} {e' : EP} {g' : Ghost} {ba' : List Msg} {hd : List Msg}
+theorem dead_step {x : Nat} {p : PS} {e' : EP} {g' : Ghost} {ba' : List Msg} {hd : List Msg} {lk' : List Nat}
     (d : Dead x (ev x p.a p.ga) (ev x p.b p.gb) (fl x (pathAB p)) (fl x (pathBA p)))
     (s : Eff (· = x) p.a e') (hba : fl x (pathBA p) = hd ++ fl x (ba' ++ p.b.outq))
-    (hslot : lookup p.a.flows x = none → lookup e'.flows x = none) :
-    Phase x { p with a := e', ga := g', ba := ba' } := by
+    (hslot : lookup p.a.flows x = none → lookup e'.flows x = none)
+    (hrst : ¬ noReset hd → lookup e'.flows x = none) :
+    Phase x { p with a := e', ga := g', ba := ba', linked := lk' } := by
   obtain ⟨em, he, hm⟩ := s.outq
   have hra : ¬ x ∈ p.a.rng := d.ra
   refine Or.inr (Or.inr (Or.inr (Or.inr (Or.inr (Or.inr ⟨?_, d.rb, ?_, ?_, ?_⟩)))))
@@ -113,14 +114,26 @@ theorem dead_step {x : Nat} {p : PS} {e' : EP} {g' : Ghost} {ba' : List Msg} {hd
   · show noConnect (fl x (ba' ++ p.b.outq))
     intro m hmm
     exact d.nba m (by rw [hba]; exact List.mem_append_right _ hmm)
-  · rcases d.gone with g | g
+  · rcases d.gone with g | g | g | g
     · exact Or.inl (hslot g)
-    · exact Or.inr g
-
-end Penguin.Pair
-
-namespace Penguin.Pair
-open Penguin.Mux
+    · exact Or.inr (Or.inl g)
+    · right; right; left
+      show ¬ noReset (fl x (p.ab ++ e'.outq))
+      intro hh; apply g
+      intro m hmm
+      apply hh m
+      rw [he, ← List.append_assoc, fl_append]
+      exact List.mem_append_left _ hmm
+    · by_cases hh : noReset hd
+      · right; right; right
+        show ¬ noReset (fl x (ba' ++ p.b.outq))
+        intro h2; apply g
+        rw [hba]
+        intro m hmm
+        rcases List.mem_append.mp hmm with h1 | h1
+        · exact hh m h1
+        · exact h2 m h1
+      · exact Or.inl (hrst hh)
 
 theorem ev_wlog_some {x : Nat} {e : EP} {g : Ghost} {k : Nat} {o : Obj} (h : objView x e k = some o) :
     (ev x e g).wlog k = g.wlog k ∧ (ev x e g).rlog k = g.rlog k ∧ (ev x e g).eof k = g.eof k := by
@@ -128,14 +141,13 @@ theorem ev_wlog_some {x : Nat} {e : EP} {g : Ghost} {k : Nat} {o : Obj} (h : obj
 
 /-- `Connect` reaches the accepting side: requested → half-open.  The accepting side's sending
     direction starts in `Link.init` (credit = the window the requester advertised). -/
-theorem phase_connect {p : PS} (h : Inv p) (x W port : Nat) (host : Bytes) (rest : List Msg)
+theorem phase_connect {p : PS} (h : Inv p) (x W port : Nat) (host : Bytes) (rest : List Msg) {lk' : List Nat}
     (hba : p.ba = .frame (.connect x W port host) :: rest)
     (r : Requested x (ev x p.b p.gb) (ev x p.a p.ga) (fl x (pathBA p)) (fl x (pathAB p))) :
-    Phase x { p with a := (processFrame p.a (.connect x W port host) false).1, ba := rest } := by
+    Phase x { p with a := (processFrame p.a (.connect x W port host) false).1, ba := rest, linked := lk' } := by
   have hsb : lookup p.a.flows x = none := r.sb
   obtain ⟨s1, s2, s3, s4, s5, s6⟩ := processFrame_connect_spec p.a x W port host false r.x0 hsb h.runA.outClosed h.runA.muxAlive
   generalize (processFrame p.a (.connect x W port host) false).1 = e' at *
-  -- the connect in the path is the one that was consumed
   obtain ⟨port', host', hfab⟩ := r.fab
   have hhead : fl x (pathBA p) = .frame (.connect x W port host) :: fl x (rest ++ p.b.outq) := by
     show fl x (p.ba ++ p.b.outq) = _
@@ -151,11 +163,13 @@ theorem phase_connect {p : PS} (h : Inv p) (x W port : Nat) (host : Bytes) (rest
     objView_append_new x p.a e' _ s1 rfl
   have hovj : objView x e' p.a.objs.length = some (newObj p.a.opts x W host port) := by rw [hov]; simp
   have hgf := h.ghA p.a.objs.length (Nat.le_refl _)
+  have hndq : ¬ x ∈ e'.droppedq := by rw [s4]; exact r.db
   apply Or.inr; apply Or.inr; apply Or.inr; apply Or.inr; apply Or.inl
   show HalfOpen x (ev x p.b p.gb) (ev x e' p.ga) (fl x (rest ++ p.b.outq)) (fl x (p.ab ++ e'.outq))
   refine ⟨r.ra, by show ¬ x ∈ e'.rng; rw [s5]; exact r.rb, r.sa, r.oa, r.da, hT,
     ⟨p.a.objs.length, newObj p.a.opts x W host port, [], Link.init p.b.opts.rwnd (thresholdFor p.b.opts p.a.opts.rwnd),
-      s2, hovj, ?_, ?_, by simp, ?_, ?_, rfl, rfl, rfl, rfl, ?_, ?_, ?_, fun _ => rfl⟩⟩
+      s2, hovj, ?_, ?_, by simp, ?_, ?_, rfl, rfl, rfl, rfl, ?_, ?_, ?_, fun _ => rfl, (by intro m hm; cases hm), rfl,
+      (fun hh => by cases hh), fun hh => absurd hh hndq⟩⟩
   · intro k hk
     show objView x e' k = none
     rw [hov, if_neg hk]; exact r.ob k
@@ -174,23 +188,19 @@ theorem phase_connect {p : PS} (h : Inv p) (x W port : Nat) (host : Bytes) (rest
   · rw [(ev_wlog_some hovj).2.1, hgf.2.1]
   · rw [(ev_wlog_some hovj).2.2, hgf.2.2]
 
-end Penguin.Pair
-
-namespace Penguin.Pair
-open Penguin.Mux
-
 /-- `Acknowledge` reaches the requesting side: half-open → linked.  The requester's sending
     direction starts in `Link.init` with the acceptor's window as credit; the acceptor's direction
     continues from where it is. -/
 theorem phase_ack {p : PS} (h : Inv p) (x n : Nat) (rest : List Msg)
     (hba : p.ba = .frame (.acknowledge x n) :: rest)
     (r : HalfOpen x (ev x p.a p.ga) (ev x p.b p.gb) (fl x (pathAB p)) (fl x (pathBA p))) :
-    Phase x { p with a := (processFrame p.a (.acknowledge x n) false).1, ba := rest } := by
+    Linked x (ev x (processFrame p.a (.acknowledge x n) false).1 p.ga) (ev x p.b p.gb)
+      (fl x (p.ab ++ (processFrame p.a (.acknowledge x n) false).1.outq)) (fl x (rest ++ p.b.outq)) := by
   obtain ⟨req, hsa⟩ := r.sa
   have hsa' : lookup p.a.flows x = some (.requested req) := hsa
   obtain ⟨s1, s2, s3, s4, s5⟩ := processFrame_ack_spec p.a x n req false hsa'
   generalize (processFrame p.a (.acknowledge x n) false).1 = e' at *
-  obtain ⟨j, oP, rest', l, h1, h2, h3, h4, h5, h6, h7, h8, h9, h10, h11, h12, h13, h14, h15⟩ := r.body
+  obtain ⟨j, oP, rest', l, h1, h2, h3, h4, h5, h6, h7, h8, h9, h10, h11, h12, h13, h14, h15, h16, h17, h18, h19⟩ := r.body
   have hhead : fl x (pathBA p) = .frame (.acknowledge x n) :: fl x (rest ++ p.b.outq) := by
     show fl x (p.ba ++ p.b.outq) = _
     rw [hba, List.cons_append, fl_cons]
@@ -207,45 +217,61 @@ theorem phase_ack {p : PS} (h : Inv p) (x n : Nat) (rest : List Msg)
   have hoptsA : (ev x p.a p.ga).opts = p.a.opts := rfl
   rw [hopts] at h6 h7 h12
   rw [hoptsA] at h7 h12
-  apply Or.inr; apply Or.inr; apply Or.inr; apply Or.inr; apply Or.inr; apply Or.inl
-  show Linked x (ev x e' p.ga) (ev x p.b p.gb) (fl x (p.ab ++ e'.outq)) (fl x (rest ++ p.b.outq))
   rw [hfab, hT]
   have hacks : rest'.filterMap ackOf = [] := filterMap_ackOf_nil _ (fun m hm => (h5 m hm).2)
+  have hslA : (ev x e' p.ga).slot = some (.established p.a.objs.length) := s1
+  have hneA : (ev x e' p.ga).slot ≠ none := by rw [hslA]; intro hh; cases hh
+  have hneB : (ev x p.b p.gb).slot ≠ none := by rw [h1]; intro hh; cases hh
+  -- the claim for the requester's sending direction, for either shape of the new object
+  have claimAB : ∀ oA : Obj, oA.credit = n → oA.finishSent = false →
+      Claim (ev x e' p.ga).slot oA oP [] rest' [] ((ev x p.b p.gb).rlog j) ((ev x p.b p.gb).eof j) := by
+    intro oA hc hf hrok
+    refine ⟨fun _ => ?_, fun hh => absurd hh hneA⟩
+    have hrx : oP.rxOpen = true := by
+      rcases hrok with hh | hh
+      · exact hh
+      · rw [h14] at hh; cases hh
+    rw [h13, h14]
+    refine ⟨Link.init oP.cap oP.threshold, Link.init_inv _ _ (by rw [h6]; exact h.runB.rwndPos)
+      (by rw [h6, h7]; exact thresholdFor_le _ _), rfl, by rw [h6]; exact h.runB.rwndU32, rfl, ?_, by rw [hf]; rfl, rfl,
+      by rw [h11]; rfl, by rw [h8]; rfl, by rw [h9]; rfl, by rw [h10]; rfl, by rw [hacks]; rfl, rfl, rfl, rfl, ?_⟩
+    · show oP.cap = oA.credit; rw [hc, h6, hn]
+    · intro hh; rw [hrx] at hh; cases hh
+  have wireAB : ∀ oA : Obj, Wire oA oP (ev x p.b p.gb).slot [] :=
+    fun oA => ⟨rfl, fun hh => (by cases hh), fun _ hal => (by rw [h11] at hal; cases hal)⟩
   rcases s5 with ⟨so, sd⟩ | ⟨so, sd⟩
   · -- the requester is still waiting: the stream is handed to it
     have hov := objView_append_new x p.a e' _ so rfl
     have hovi : objView x e' p.a.objs.length = some (newObj p.a.opts x n [] 0) := by rw [hov]; simp
+    have hndq : ¬ x ∈ e'.droppedq := by rw [sd]; exact r.da
     refine ⟨(by show ¬ x ∈ e'.rng; rw [s3]; exact r.ra), r.rb, (by intro m hm; cases hm), fun m hm => (h5 m hm).1,
-      ⟨p.a.objs.length, j, newObj p.a.opts x n [] 0, oP, s1, h1, hovi, h2, ?_, h3, by show _ = e'.opts.rwnd; rw [s4]; rfl, h6, ?_⟩⟩
+      ⟨p.a.objs.length, j, newObj p.a.opts x n [] 0, oP, hovi, h2, ?_, h3, by show _ = e'.opts.rwnd; rw [s4]; rfl, h6,
+        Or.inl s1, Or.inl h1, fun _ => (by intro m hm; cases hm), fun _ => h16, wireAB _, ?_,
+        fun hh => absurd hh hndq, h19, ?_, ?_⟩⟩
     · intro k hk
       show objView x e' k = none
       rw [hov, if_neg hk]; exact r.oa k
-    · intro _ hdb
-      rw [(ev_wlog_some hovi).1, (ev_wlog_some hovi).2.1, (ev_wlog_some hovi).2.2, hgf.1, hgf.2.1, hgf.2.2, h13, h14]
-      constructor
-      · refine ⟨Link.init oP.cap oP.threshold, Link.init_inv _ _ (by rw [h6]; exact h.runB.rwndPos)
-          (by rw [h6, h7]; exact thresholdFor_le _ _), rfl, by rw [h6]; exact h.runB.rwndU32, rfl, ?_, rfl, rfl, by rw [h11]; rfl,
-          by rw [h8]; rfl, by rw [h9]; rfl, by rw [h10]; rfl, by rw [hacks]; rfl, rfl, rfl, rfl, ?_⟩
-        · show oP.cap = n; rw [h6, hn]
-        · intro hh; have := h15 hdb; rw [hh] at this; cases this
-      · rw [hn]; exact ⟨l, h12⟩
+    · exact ⟨h17, h18, fun _ hal => (by cases hal)⟩
+    · rw [(ev_wlog_some hovi).1, hgf.1]; exact claimAB _ rfl rfl
+    · intro _
+      rw [(ev_wlog_some hovi).2.1, (ev_wlog_some hovi).2.2, hgf.2.1, hgf.2.2]
+      refine ⟨fun _ => ?_, fun hh => absurd hh hneB⟩
+      rw [hn]; exact ⟨l, h12⟩
   · -- the requester has given up: the stream is dropped at once (its notification is queued)
     have hov := objView_append_new x p.a e' _ so rfl
     have hovi : objView x e' p.a.objs.length = some { newObj p.a.opts x n [] 0 with rxOpen := false } := by rw [hov]; simp
     refine ⟨(by show ¬ x ∈ e'.rng; rw [s3]; exact r.ra), r.rb, (by intro m hm; cases hm), fun m hm => (h5 m hm).1,
-      ⟨p.a.objs.length, j, _, oP, s1, h1, hovi, h2, ?_, h3, by show _ = e'.opts.rwnd; rw [s4]; rfl, h6, ?_⟩⟩
+      ⟨p.a.objs.length, j, _, oP, hovi, h2, ?_, h3, by show _ = e'.opts.rwnd; rw [s4]; rfl, h6,
+        Or.inl s1, Or.inl h1, fun _ => (by intro m hm; cases hm), fun _ => h16, wireAB _, ?_,
+        fun _ => rfl, h19, ?_, ?_⟩⟩
     · intro k hk
       show objView x e' k = none
       rw [hov, if_neg hk]; exact r.oa k
-    · intro hda _
-      exfalso; apply hda
-      show x ∈ e'.droppedq
-      rw [sd]; simp
-
-end Penguin.Pair
-
-namespace Penguin.Pair
-open Penguin.Mux
+    · exact ⟨h17, h18, fun _ hal => (by cases hal)⟩
+    · rw [(ev_wlog_some hovi).1, hgf.1]; exact claimAB _ rfl rfl
+    · intro hrok
+      rw [(ev_wlog_some hovi).2.2, hgf.2.2] at hrok
+      rcases hrok with hh | hh <;> cases hh
 
 theorem noConnect_eff {x : Nat} {p : PS} {e' : EP} (s : Eff (· = x) p.a e') (hra : ¬ x ∈ p.a.rng)
     (hn : noConnect (fl x (pathAB p))) : noConnect (fl x (p.ab ++ e'.outq)) := by
@@ -262,7 +288,8 @@ theorem noConnect_eff {x : Nat} {p : PS} {e' : EP} (s : Eff (· = x) p.a e') (hr
     | true => exact absurd ((hm m hmem x hflow).2 hc) hra
 
 theorem resets_facts {x : Nat} {em : List Msg} (h : ResetsOf x em) :
-    (∀ m ∈ em, Msg.flow? m = some x ∧ m.isConnect = false) ∧ em.filterMap toItem = [] ∧ em.filterMap ackOf = [] := by
+    (∀ m ∈ em, Msg.flow? m = some x ∧ m.isConnect = false) ∧ em.filterMap ackOf = [] ∧
+    Link.pushes (em.filterMap toItem) = [] := by
   refine ⟨fun m hm => by rw [h m hm]; exact ⟨rfl, rfl⟩, ?_, ?_⟩
   · induction em with
     | nil => rfl
@@ -273,74 +300,404 @@ theorem resets_facts {x : Nat} {em : List Msg} (h : ResetsOf x em) :
     | nil => rfl
     | cons m rest ih =>
       rw [List.filterMap_cons, h m (by simp)]
+      simp only [toItem_reset, Link.pushes_rst]
       exact ih (fun m' hm' => h m' (List.mem_cons_of_mem _ hm'))
 
-/-- A frame for a linked flow: the link model's `deliver` / `deliverAck`, or the flow dies. -/
-theorem phase_linked_recv {p : PS} (h : Inv p) (f : Frame) (x : Nat) (hid : f.id = x)
-    (hflow : Msg.flow? (.frame f) = some x) (rest : List Msg) (hba : p.ba = .frame f :: rest)
-    (r : Linked x (ev x p.a p.ga) (ev x p.b p.gb) (fl x (pathAB p)) (fl x (pathBA p))) :
-    Phase x { p with a := (processFrame p.a f false).1, ba := rest } := by
-  obtain ⟨i, j, oA, oB, h1, h2, h3, h4, h5, h6, _, _, h7⟩ := r.body
-  obtain ⟨ho, hfid⟩ := objView_some h3
-  have hs : lookup p.a.flows x = some (.established i) := h1
+end Penguin.Pair
+
+namespace Penguin.Pair
+open Penguin.Mux
+
+theorem disallowWrite_fields (o : Obj) :
+    o.disallowWrite.finishSent = true ∧ o.disallowWrite.fid = o.fid ∧ o.disallowWrite.cap = o.cap ∧
+    o.disallowWrite.threshold = o.threshold ∧ o.disallowWrite.rxq = o.rxq ∧ o.disallowWrite.buf = o.buf ∧
+    o.disallowWrite.recvdSince = o.recvdSince ∧ o.disallowWrite.rxOpen = o.rxOpen ∧
+    o.disallowWrite.senderAlive = o.senderAlive ∧ o.disallowWrite.credit = o.credit := by
+  unfold Obj.disallowWrite Obj.wake
+  split <;> exact ⟨rfl, rfl, rfl, rfl, rfl, rfl, rfl, rfl, rfl, rfl⟩
+
+/-- What was consumed from the incoming path when endpoint `a` released the flow. -/
+inductive RelCase (y : Nat) (o : Obj) (em hd : List Msg) : Prop where
+  | notif (h1 : hd = []) (h2 : o.rxOpen = false) (h3 : o.finishSent = false → em = [.frame (.reset y)])
+  | reset (h1 : hd = [.frame (.reset y)]) (h2 : em = [])
+  | overrun (d : Bytes) (h1 : hd = [.frame (.push y d)]) (h2 : o.senderAlive = true) (h3 : o.rxOpen = true)
+      (h4 : ¬ o.rxq.length < o.cap) (h5 : o.finishSent = false → em = [.frame (.reset y)])
+
+/-- Endpoint `a` releases a live flow (its handle was dropped, the peer's `Reset` arrived, or — never,
+    between conforming endpoints — the window was overrun): the flow stays live; `a`'s sending
+    direction continues as the frozen-sender relation (`Link.step .abort` if a `Reset` goes out). -/
+theorem linked_release {p : PS} {e' : EP} {i y : Nat} {o : Obj} {em hd fbaT ba' : List Msg}
+    (r : Linked y (ev y p.a p.ga) (ev y p.b p.gb) (fl y (pathAB p)) (hd ++ fbaT))
+    (hs : lookup p.a.flows y = some (.established i)) (ho : p.a.objs[i]? = some o) (hoy : o.fid = y)
+    (hflows : lookup e'.flows y = none) (hrng : e'.rng = p.a.rng) (hopts : e'.opts = p.a.opts)
+    (hothers : ∀ k, k ≠ i → e'.objs[k]? = p.a.objs[k]?)
+    (hself : e'.objs[i]? = some { o.disallowWrite with senderAlive := false })
+    (houtq : e'.outq = p.a.outq ++ em) (hdq : y ∈ e'.droppedq → y ∈ p.a.droppedq)
+    (hem : em = [] ∨ (em = [.frame (.reset y)] ∧ o.finishSent = false))
+    (hcase : RelCase y o em hd) (hba2 : fl y (ba' ++ p.b.outq) = fbaT) :
+    Linked y (ev y e' p.ga) (ev y p.b p.gb) (fl y (p.ab ++ e'.outq)) (fl y (ba' ++ p.b.outq)) := by
+  obtain ⟨f1, f2, f3, f4, f5, f6, f7, f8, f9, f10⟩ := disallowWrite_fields o
+  obtain ⟨i0, j, oA, oB, h3, h4, h5, h6, c1, c2, s1, s2, n1, n2, w1, w2, q1, q2, k1, k2⟩ := r.body
+  have hov := objView_self ho hoy
+  have hi0 : i0 = i := by
+    rcases Nat.decEq i i0 with hne | he
+    · have := h5 i hne; rw [show (ev y p.a p.ga).objs i = objView y p.a i from rfl, hov] at this; cases this
+    · exact he.symm
+  subst hi0
+  have hoA : oA = o := by
+    rw [show (ev y p.a p.ga).objs i0 = objView y p.a i0 from rfl, hov] at h3; cases h3; rfl
+  subst hoA
+  have hslA : (ev y p.a p.ga).slot = some (.established i0) := hs
+  have hneA : (ev y p.a p.ga).slot ≠ none := by rw [hslA]; intro hh; cases hh
+  have hslA' : (ev y e' p.ga).slot = none := hflows
+  have hov' : objView y e' i0 = some { oA.disallowWrite with senderAlive := false } := objView_self hself (by show oA.disallowWrite.fid = y; rw [f2]; exact hoy)
+  have honly' : OnlyObj (ev y e' p.ga) i0 := by
+    intro k hk
+    show objView y e' k = none
+    have := h5 k hk
+    simp only [objView, hothers k hk]
+    exact this
+  have hemfl : ∀ m ∈ em, Msg.flow? m = some y := by
+    intro m hm
+    rcases hem with he | ⟨he, _⟩ <;> rw [he] at hm
+    · cases hm
+    · simp at hm; subst hm; rfl
+  have hfl : fl y (p.ab ++ e'.outq) = fl y (pathAB p) ++ em := by
+    rw [houtq, ← List.append_assoc, fl_append, fl_self y em hemfl]; rfl
+  have hitems : (fl y (pathAB p) ++ em).filterMap toItem =
+      (fl y (pathAB p)).filterMap toItem ++ (if em = [] then [] else [.rst]) := by
+    rw [List.filterMap_append]
+    rcases hem with he | ⟨he, _⟩ <;> rw [he] <;> simp
+  have hwl : (ev y e' p.ga).wlog i0 = p.ga.wlog i0 := by simp [ev, hov']
+  have hrl : (ev y e' p.ga).rlog i0 = p.ga.rlog i0 := by simp [ev, hov']
+  have hel : (ev y e' p.ga).eof i0 = p.ga.eof i0 := by simp [ev, hov']
+  have hwl0 : (ev y p.a p.ga).wlog i0 = p.ga.wlog i0 := by simp [ev, hov]
+  have hrl0 : (ev y p.a p.ga).rlog i0 = p.ga.rlog i0 := by simp [ev, hov]
+  have hel0 : (ev y p.a p.ga).eof i0 = p.ga.eof i0 := by simp [ev, hov]
+  have hsplit : (hd ++ fbaT).filterMap toItem = hd.filterMap toItem ++ fbaT.filterMap toItem := List.filterMap_append
+  have hbnone_reset : (∃ y', Msg.frame (Frame.reset y') ∈ hd) → (ev y p.b p.gb).slot = none := by
+    intro ⟨y', hm⟩
+    cases hb : (ev y p.b p.gb).slot with
+    | none => rfl
+    | some sb =>
+      have := n2 (by rw [hb]; intro hh; cases hh) (.frame (.reset y')) (List.mem_append_left _ hm) y'
+      exact absurd rfl this
+  rw [hfl, hba2]
+  refine ⟨by show ¬ y ∈ e'.rng; rw [hrng]; exact r.ra, r.rb, ?_, fun m hm => r.nba m (List.mem_append_right _ hm),
+    ⟨i0, j, _, oB, hov', h4, honly', h6, by show oA.disallowWrite.cap = e'.opts.rwnd; rw [f3, hopts]; exact c1, c2,
+      Or.inr ⟨hslA', f1, rfl⟩, s2, fun hne => absurd hslA' hne,
+      fun hne m hm => n2 hne m (List.mem_append_right _ hm), ?_, ?_, ?_, q2, ?_, ?_⟩⟩
+  · -- no Connect
+    intro m hm
+    rcases List.mem_append.mp hm with h1 | h1
+    · exact r.nab m h1
+    · rcases hem with he | ⟨he, _⟩ <;> rw [he] at h1
+      · cases h1
+      · simp at h1; subst h1; rfl
+  · -- wire a → b
+    refine ⟨?_, fun _ => f1, fun hne hal => ?_⟩
+    · rw [hitems]
+      refine npae_append _ _ w1.shape (by split <;> rfl) (fun _ => by split <;> rfl)
+    · obtain ⟨z1, _⟩ := w1.quiet hne hal
+      rw [hitems, Link.pushes_append, z1]
+      exact ⟨by split <;> rfl, f1⟩
+  · -- wire b → a (the receiving slot is gone)
+    refine ⟨?_, ?_, fun hne => absurd hslA' hne⟩
+    · have := w2.shape; rw [hsplit] at this; exact npae_suffix _ _ this
+    · intro he; apply w2.ended; rw [hsplit, Link.hasEnd_append, he]; simp
+  · intro hh; rw [show oA.disallowWrite.rxOpen = oA.rxOpen from f8]; exact q1 (hdq hh)
+  · -- direction a → b: the sender is released
+    intro hrok
+    obtain ⟨ka, _⟩ := k1 hrok
+    obtain ⟨l1, d1⟩ := ka hneA
+    rw [hwl0] at d1
+    rw [hwl]
+    refine ⟨fun hne => absurd hslA' hne, fun _ => ?_⟩
+    rcases hem with he | ⟨he, hf⟩
+    · subst he
+      rw [List.append_nil]
+      by_cases hf : oA.finishSent = true
+      · exact ⟨l1, d1.release_quiet hf⟩
+      · have hf' : oA.finishSent = false := by simpa using hf
+        -- nothing was emitted although the sender was still open: the peer's Reset was consumed
+        cases hcase with
+        | notif _ _ e3 => have := e3 hf'; cases this
+        | overrun d _ _ _ _ e5 => have := e5 hf'; cases this
+        | reset e1 _ =>
+          have hbn := hbnone_reset ⟨y, by rw [e1]; simp⟩
+          have hal : oB.senderAlive = false := by
+            rcases s2 with s2 | ⟨_, _, s2⟩
+            · rw [hbn] at s2; cases s2
+            · exact s2
+          exact d1.release_inhibit hal
+    · subst he
+      exact ⟨_, d1.release_reset y hf⟩
+  · -- direction b → a: the receiver's slot is gone, its object is closed
+    intro hrok
+    rw [hel] at hrok
+    rw [hrl, hel]
+    have hrok0 : ReaderOk oA ((ev y p.a p.ga).eof i0) := by
+      rw [hel0]; rcases hrok with hh | hh
+      · left; rw [← f8]; exact hh
+      · right; exact hh
+    obtain ⟨ka, kb⟩ := k2 hrok0
+    -- an end marker consumed, or end-of-stream already seen: the receiver's side was (or now is) over
+    have hcongrA : ∀ {fw : List Msg} {w : Bytes} {l : Link.St},
+        DirRelA { oA with senderAlive := false } fw w (p.ga.rlog i0) (p.ga.eof i0) l →
+        DirRelA { oA.disallowWrite with senderAlive := false } fw w (p.ga.rlog i0) (p.ga.eof i0) l :=
+      fun d => d.congr f3 f4 rfl f5 f6 f7 (fun _ => rfl) rfl rfl rfl f8
+    constructor
+    · intro hne
+      obtain ⟨l2, d2⟩ := ka hne
+      rw [hrl0, hel0] at d2
+      cases hcase with
+      | notif e1 e2 _ =>
+        subst e1
+        have heof : p.ga.eof i0 = true := by
+          rcases hrok with hh | hh
+          · have h' : oA.disallowWrite.rxOpen = true := hh
+            rw [f8, e2] at h'; cases h'
+          · exact hh
+        have hal : oA.senderAlive = false := by
+          have := (d2.inv.heof (by rw [d2.heof]; exact heof)).1
+          rw [d2.halive] at this; exact this
+        refine ⟨l2, d2.congr rfl rfl f3 f4 (by show false = oA.senderAlive; rw [hal]) f5 f6 f7 rfl ?_ rfl rfl rfl f8⟩
+        rcases hem with he | ⟨he, _⟩ <;> rw [he] <;> simp [List.filterMap_append, List.filterMap_cons]
+      | reset e1 _ =>
+        have hbn := hbnone_reset ⟨y, by rw [e1]; simp⟩
+        exact absurd hbn hne
+      | overrun d e1 e2 e3 e4 _ =>
+        subst e1
+        exact absurd (d2.deliverPush y d).2.1 e4
+    · intro hnone
+      obtain ⟨l2, d2⟩ := kb hnone
+      rw [hrl0, hel0] at d2
+      cases hcase with
+      | notif e1 e2 _ =>
+        subst e1
+        have heof : p.ga.eof i0 = true := by
+          rcases hrok with hh | hh
+          · have h' : oA.disallowWrite.rxOpen = true := hh
+            rw [f8, e2] at h'; cases h'
+          · exact hh
+        have hal : oA.senderAlive = false := by
+          have := (d2.inv.heof (by rw [d2.heof]; exact heof)).1
+          rw [d2.halive] at this; exact this
+        exact ⟨l2, d2.congr f3 f4 (by show false = oA.senderAlive; rw [hal]) f5 f6 f7 (fun _ => rfl) rfl rfl rfl f8⟩
+      | reset e1 _ =>
+        subst e1
+        obtain ⟨l', d'⟩ := d2.deliverEnd (.frame (.reset y)) (Or.inr rfl)
+        exact ⟨l', hcongrA d'⟩
+      | overrun d e1 e2 e3 e4 _ =>
+        subst e1
+        exact absurd (d2.deliverPush y d e2).1 e4
+
+end Penguin.Pair
+
+namespace Penguin.Pair
+open Penguin.Mux
+
+theorem wake_fields (o : Obj) :
+    o.wake.finishSent = o.finishSent ∧ o.wake.fid = o.fid ∧ o.wake.cap = o.cap ∧ o.wake.threshold = o.threshold ∧
+    o.wake.rxq = o.rxq ∧ o.wake.buf = o.buf ∧ o.wake.recvdSince = o.recvdSince ∧ o.wake.rxOpen = o.rxOpen ∧
+    o.wake.senderAlive = o.senderAlive ∧ o.wake.credit = o.credit := by
+  unfold Obj.wake
+  split <;> exact ⟨rfl, rfl, rfl, rfl, rfl, rfl, rfl, rfl, rfl, rfl⟩
+
+/-- A frame for a live flow at an endpoint that holds it (the object-local cases): the link model's
+    `deliver` / `deliverAck`. -/
+theorem live_recv_est {p : PS} (h : Inv p) (f : Frame) (x i : Nat) (oA : Obj) (rest : List Msg) {lk' : List Nat}
+    (hid : f.id = x) (hflow : Msg.flow? (.frame f) = some x) (hba : p.ba = .frame f :: rest)
+    (hnb : ∀ a b c d, f ≠ .bind a b c d)
+    (hs : lookup p.a.flows x = some (.established i)) (ho : p.a.objs[i]? = some oA) (hfid : oA.fid = x)
+    (r : Linked x (ev x p.a p.ga) (ev x p.b p.gb) (fl x (pathAB p)) (fl x (pathBA p)))
+    (o' : Obj) (em : List Msg) (u : LocalUpd p.a (processFrame p.a f false).1 i o' em [])
+    (hcls : (∃ n, f = .acknowledge x n ∧ o' = { oA.wake with credit := (oA.credit + n) % 4294967296 } ∧ em = []) ∨
+       (f = .finish x ∧ o' = { oA with senderAlive := false } ∧ em = []) ∨
+       (∃ d, f = .push x d ∧
+          ((oA.senderAlive = true ∧ oA.rxOpen = true ∧ oA.rxq.length < oA.cap ∧ o' = { oA with rxq := oA.rxq ++ [d] } ∧ em = []) ∨
+           (oA.senderAlive = false ∧ o' = oA ∧ em = [.frame (.reset x)]) ∨
+           (oA.senderAlive = true ∧ oA.rxOpen = false ∧ o' = oA ∧ em = []))) ∨
+       ((∃ bt port host, f = .bind x bt port host) ∨ (∃ port host d, f = .datagram x port host d))) :
+    Phase x { p with a := (processFrame p.a f false).1, ba := rest, linked := lk' } ∧
+    (Linked x (ev x p.a p.ga) (ev x p.b p.gb) (fl x (pathAB p)) (fl x (pathBA p)) →
+      Linked x (ev x (processFrame p.a f false).1 p.ga) (ev x p.b p.gb) (fl x (p.ab ++ (processFrame p.a f false).1.outq))
+        (fl x (rest ++ p.b.outq))) := by
   have hhead : fl x (pathBA p) = [.frame f] ++ fl x (rest ++ p.b.outq) := by
     show fl x (p.ba ++ p.b.outq) = _
     rw [hba, List.cons_append, fl_cons]
     simp [isFl, hflow]
-  have hnc : (Msg.frame f).isConnect = false := r.nba _ (by rw [hhead]; simp)
-  have s := processFrame_eff p.a f false h.sfA
-  rw [hid] at s
-  rcases processFrame_est p.a f false x i oA hs ho hid hnc h.runA.outClosed with hnone | ⟨o', em, u, hres, hcls⟩
-  · exact Or.inr (Or.inr (Or.inr (Or.inr (Or.inr (Or.inr ⟨fun hh => r.ra (s.rngSub.subset hh), r.rb,
-      noConnect_eff (p := p) s r.ra r.nab, fun m hm => r.nba m (by rw [hhead]; exact List.mem_append_right _ hm), Or.inl hnone⟩)))))
-  · obtain ⟨hem, hemI, hemA⟩ := resets_facts hres
-    have hsame : o'.fid = oA.fid ∧ o'.cap = oA.cap ∧ o'.threshold = oA.threshold := by
-      rcases hcls with ⟨n, _, ho', _⟩ | ⟨_, ho', _⟩ | ⟨d, _, ⟨_, _, _, ho', _⟩ | ⟨_, ho'⟩⟩ | ⟨_, ho'⟩
-      · subst ho'; unfold Obj.wake; split <;> exact ⟨rfl, rfl, rfl⟩
-      all_goals subst ho'; exact ⟨rfl, rfl, rfl⟩
-    refine phase_upd (g' := p.ga) (ba' := rest) (hd := [.frame f]) (h.phase x) u ho hfid (by rw [hsame.1, hfid]) hem
-      hhead rfl ?_ ?_ (fun hd0 => by cases hd0) ⟨hsame.2.1, hsame.2.2⟩ (by simp)
-    · -- `a` in the sending role: only an `Acknowledge` matters
-      intro oR fwd bwd rr eof l dr
-      rcases hcls with ⟨n, hf, ho', hem0⟩ | ⟨hf, ho', hem0⟩ | ⟨d, hf, ⟨_, _, _, ho', hem0⟩ | ⟨_, ho'⟩⟩ | ⟨hf, ho'⟩
-      · subst hf; subst ho'; subst hem0
-        rw [List.append_nil]
-        exact ⟨_, dr.deliverAck x n⟩
-      · subst hf; subst ho'; subst hem0
-        exact ⟨l, dr.congr rfl rfl rfl rfl rfl rfl rfl rfl (by simp [List.filterMap_cons]) (by simp [List.filterMap_cons]) rfl rfl rfl rfl⟩
-      · subst hf; subst ho'; subst hem0
-        exact ⟨l, dr.congr rfl rfl rfl rfl rfl rfl rfl rfl (by simp [List.filterMap_cons]) (by simp [List.filterMap_cons]) rfl rfl rfl rfl⟩
-      · subst hf; subst ho'
-        exact ⟨l, dr.congr rfl rfl rfl rfl rfl rfl rfl rfl (by rw [List.filterMap_append, hemI]; simp) (by simp [List.filterMap_cons]) rfl rfl rfl rfl⟩
-      · subst ho'
-        refine ⟨l, dr.congr rfl rfl rfl rfl rfl rfl rfl rfl (by rw [List.filterMap_append, hemI]; simp) ?_ rfl rfl rfl rfl⟩
-        rcases hf with ⟨bt, port, host, hf⟩ | ⟨port, host, d, hf⟩ <;> subst hf <;> simp [ackOf, List.filterMap_cons]
-    · -- `a` in the receiving role: `Push` and `Finish` matter
-      intro _ oS fwd bwd w l dr
-      rcases hcls with ⟨n, hf, ho', hem0⟩ | ⟨hf, ho', hem0⟩ | ⟨d, hf, ⟨_, _, _, ho', hem0⟩ | ⟨hnot, ho'⟩⟩ | ⟨hf, ho'⟩
-      · subst hf; subst ho'; subst hem0
-        refine ⟨l, dr.congr rfl rfl ?_ ?_ ?_ ?_ ?_ ?_ (by simp [List.filterMap_cons]) (by simp) rfl rfl rfl ?_⟩
-        all_goals (unfold Obj.wake; split <;> rfl)
-      · subst hf; subst ho'; subst hem0
-        rw [List.append_nil]
-        exact ⟨_, dr.deliverFinish x⟩
-      · subst hf; subst ho'; subst hem0
+  have hest : lookup p.a.flows x ≠ none := by rw [hs]; intro hh; cases hh
+  -- the wire-level fact for the incoming path
+  obtain ⟨i0, j, oA0, oB, h3, h4, h5, h6, c1, c2, s1, s2, n1, n2, w1, w2, q1, q2, k1, k2⟩ := r.body
+  have hov := objView_self ho hfid
+  have hi0 : i0 = i := by
+    rcases Nat.decEq i i0 with hne | he
+    · have := h5 i hne; rw [show (ev x p.a p.ga).objs i = objView x p.a i from rfl, hov] at this; cases this
+    · exact he.symm
+  subst hi0
+  have hoA : oA0 = oA := by
+    rw [show (ev x p.a p.ga).objs i0 = objView x p.a i0 from rfl, hov] at h3; cases h3; rfl
+  subst hoA
+  have hslA : (ev x p.a p.ga).slot ≠ none := hest
+  obtain ⟨wk1, wk2, wk3, wk4, wk5, wk6, wk7, wk8, wk9, wk10⟩ := wake_fields oA0
+  have hnrhd : ∀ g : Frame, (∀ y', g ≠ .reset y') → noReset [Msg.frame g] := by
+    intro g hg m hm y' he
+    simp at hm; subst hm
+    injection he with he; exact hg y' he
+  -- the cases
+  rcases hcls with ⟨n, hf, ho', hem0⟩ | ⟨hf, ho', hem0⟩ | ⟨d, hf, hcase⟩ | hbd
+  · -- Acknowledge: `deliverAck` for the direction in which `a` sends
+    subst hf; subst ho'; subst hem0
+    refine phase_upd (g' := p.ga) (ba' := rest) (hd := [.frame (.acknowledge x n)]) (h.phase x) u ho hfid (by show oA0.wake.fid = x; rw [wk2]; exact hfid)
+      (by simp) hhead rfl ?_ ?_ ?_ (fun hk => by unfold ReaderOk at *; rw [show ({ oA0.wake with credit := _ } : Obj).rxOpen = oA0.rxOpen from wk8] at hk; exact hk)
+      ⟨fun hh => ⟨by show oA0.wake.finishSent = true; rw [wk1]; exact hh, rfl⟩, fun hh => by show oA0.wake.senderAlive = false; rw [wk9]; exact hh⟩
+      (fun _ => noReset_nil) (fun _ => hnrhd _ (by intro y' hh; cases hh))
+      ⟨rfl, fun _ => rfl, fun hh => (by cases hh), fun hh => Or.inl (by have : oA0.wake.senderAlive = false := hh; rw [wk9] at this; exact this)⟩
+      ⟨fun hh => by show oA0.wake.rxOpen = false; rw [wk8]; exact hh, fun hh => by cases hh⟩
+      (fun hd0 => by cases hd0) ⟨wk3, wk4⟩ (by simp)
+    · intro _ oR fwd bwd rr eof l dr
+      rw [List.append_nil]
+      exact ⟨_, dr.deliverAck x n⟩
+    · intro _ oS fwd bwd w l dr
+      exact ⟨l, dr.congr rfl rfl wk3 wk4 wk9 wk5 wk6 wk7 (by simp [List.filterMap_cons]) (by simp) rfl rfl rfl wk8⟩
+    · intro _ fwd w l dr
+      exact ⟨l, (dr.skip _ rfl).congr wk3 wk4 wk9 wk5 wk6 wk7 (fun _ => rfl) rfl rfl rfl wk8⟩
+  · -- Finish: `deliver` for the direction in which `a` receives
+    subst hf; subst ho'; subst hem0
+    refine phase_upd (g' := p.ga) (ba' := rest) (hd := [.frame (.finish x)]) (h.phase x) u ho hfid hfid
+      (by simp) hhead rfl ?_ ?_ ?_ id ⟨fun hh => ⟨hh, rfl⟩, fun _ => rfl⟩
+      (fun _ => noReset_nil) (fun _ => hnrhd _ (by intro y' hh; cases hh))
+      ⟨rfl, fun _ => rfl, fun hh => (by cases hh), fun _ => Or.inr rfl⟩ ⟨id, fun hh => by cases hh⟩
+      (fun hd0 => by cases hd0) ⟨rfl, rfl⟩ (by simp)
+    · intro _ oR fwd bwd rr eof l dr
+      exact ⟨l, dr.congr rfl rfl rfl rfl rfl rfl rfl rfl (by simp) (by simp [List.filterMap_cons]) rfl rfl rfl rfl⟩
+    · intro _ oS fwd bwd w l dr
+      rw [List.append_nil]
+      exact ⟨_, dr.deliverFinish x⟩
+    · intro _ fwd w l dr
+      exact dr.deliverEnd (.frame (.finish x)) (Or.inl rfl)
+  · -- Push
+    subst hf
+    have hpush_dead : oA0.senderAlive = false → False := by
+      intro hal
+      have := (w2.quiet hslA hal).1
+      rw [hhead] at this
+      simp [List.filterMap_cons, Link.pushes] at this
+    rcases hcase with ⟨ha, hr, hroom, ho', hem0⟩ | ⟨ha, _, _⟩ | ⟨ha, hr, ho', hem0⟩
+    · subst ho'; subst hem0
+      refine phase_upd (g' := p.ga) (ba' := rest) (hd := [.frame (.push x d)]) (h.phase x) u ho hfid hfid
+        (by simp) hhead rfl ?_ ?_ ?_ id ⟨fun hh => ⟨hh, rfl⟩, id⟩
+        (fun _ => noReset_nil) (fun _ => hnrhd _ (by intro y' hh; cases hh))
+        ⟨rfl, fun _ => rfl, fun hh => (by cases hh), fun hh => Or.inl hh⟩ ⟨id, fun hh => by cases hh⟩
+        (fun hd0 => by cases hd0) ⟨rfl, rfl⟩ (by simp)
+      · intro _ oR fwd bwd rr eof l dr
+        exact ⟨l, dr.congr rfl rfl rfl rfl rfl rfl rfl rfl (by simp) (by simp [List.filterMap_cons]) rfl rfl rfl rfl⟩
+      · intro _ oS fwd bwd w l dr
         rw [List.append_nil]
         exact ⟨_, (dr.deliverPush x d).2.2⟩
-      · subst hf
-        exfalso; apply hnot
-        have ha := (dr.deliverPush x d).1
-        refine ⟨ha, ?_⟩
-        cases hr : oA.rxOpen with
-        | true => rfl
-        | false => have := dr.hrx hr; rw [ha] at this; cases this
-      · subst ho'
-        refine ⟨l, dr.congr rfl rfl rfl rfl rfl rfl rfl rfl ?_ (by rw [List.filterMap_append, hemA]; simp) rfl rfl rfl rfl⟩
-        rcases hf with ⟨bt, port, host, hf⟩ | ⟨port, host, d, hf⟩ <;> subst hf <;> simp [toItem, List.filterMap_cons]
+      · intro _ fwd w l dr
+        exact ⟨_, (dr.deliverPush x d ha).2⟩
+    · exact absurd ha hpush_dead
+    · subst ho'; subst hem0
+      refine phase_upd (g' := p.ga) (ba' := rest) (hd := [.frame (.push x d)]) (h.phase x) u ho hfid hfid
+        (by simp) hhead rfl ?_ ?_ ?_ id ⟨fun hh => ⟨hh, rfl⟩, id⟩
+        (fun _ => noReset_nil) (fun _ => hnrhd _ (by intro y' hh; cases hh))
+        ⟨rfl, fun _ => rfl, fun hh => (by cases hh), fun hh => Or.inl hh⟩ ⟨id, fun hh => by cases hh⟩
+        (fun hd0 => by cases hd0) ⟨rfl, rfl⟩ (by simp)
+      · intro _ oR fwd bwd rr eof l dr
+        exact ⟨l, dr.congr rfl rfl rfl rfl rfl rfl rfl rfl (by simp) (by simp [List.filterMap_cons]) rfl rfl rfl rfl⟩
+      · intro _ oS fwd bwd w l dr
+        have := dr.hrx hr; rw [ha] at this; cases this
+      · intro _ fwd w l dr
+        have := dr.hrx hr; rw [ha] at this; cases this
+  · rcases hbd with ⟨bt, port, host, hf⟩ | ⟨port, host, d, hf⟩
+    · exact absurd hf (hnb _ _ _ _)
+    · subst hf; simp [Msg.flow?] at hflow
 
-/-- The receive loop processes one frame. -/
-theorem inv_recv {p : PS} (h : Inv p) (f : Frame) (rest : List Msg) (hba : p.ba = .frame f :: rest) :
-    Inv { p with a := (processFrame p.a f false).1, ba := rest } := by
+/-- A frame for a live flow at an endpoint that has released it: nothing but a `Reset` reply. -/
+theorem live_recv_none {p : PS} (h : Inv p) (f : Frame) (x i : Nat) (oA : Obj) (rest : List Msg) {lk' : List Nat}
+    (hid : f.id = x) (hflow : Msg.flow? (.frame f) = some x) (hba : p.ba = .frame f :: rest)
+    (hs : lookup p.a.flows x = none) (ho : p.a.objs[i]? = some oA) (hfid : oA.fid = x)
+    (hclosedA : oA.finishSent = true ∧ oA.senderAlive = false)
+    (em : List Msg) (u : LocalUpd p.a (processFrame p.a f false).1 i oA em []) (hres : ResetsOf x em) :
+    Phase x { p with a := (processFrame p.a f false).1, ba := rest, linked := lk' } ∧
+    (Linked x (ev x p.a p.ga) (ev x p.b p.gb) (fl x (pathAB p)) (fl x (pathBA p)) →
+      Linked x (ev x (processFrame p.a f false).1 p.ga) (ev x p.b p.gb) (fl x (p.ab ++ (processFrame p.a f false).1.outq))
+        (fl x (rest ++ p.b.outq))) := by
+  have hhead : fl x (pathBA p) = [.frame f] ++ fl x (rest ++ p.b.outq) := by
+    show fl x (p.ba ++ p.b.outq) = _
+    rw [hba, List.cons_append, fl_cons]
+    simp [isFl, hflow]
+  obtain ⟨hem, hemA, hemP⟩ := resets_facts hres
+  have hnone : ¬ lookup p.a.flows x ≠ none := fun hh => hh hs
+  have hshape : noPushAfterEnd (em.filterMap toItem) = true := npae_pushes_nil _ hemP
+  refine phase_upd (g' := p.ga) (ba' := rest) (hd := [.frame f]) (h.phase x) u ho hfid hfid hem hhead rfl
+    (fun hh => absurd hh hnone) ?_ ?_ id ⟨fun hh => ⟨hh, rfl⟩, id⟩ (fun hh => absurd hh hnone) (fun hh => absurd hh hnone)
+    ⟨hshape, fun _ => hemP, fun _ => hclosedA.1, fun hh => Or.inl hh⟩ ⟨id, fun hh => by cases hh⟩
+    (fun hd0 => by cases hd0) ⟨rfl, rfl⟩ (by simp)
+  · -- the receiver's side is over (its slot is gone): nothing in flight counts any more
+    intro _ oS fwd bwd w l dr
+    have hal : l.rAlive = false := by rw [dr.halive]; exact hclosedA.2
+    have hw := dr.inv.hdeadwire hal
+    rw [dr.hwire] at hw
+    have hsplit : ([Msg.frame f] ++ fwd).filterMap toItem = [Msg.frame f].filterMap toItem ++ fwd.filterMap toItem := List.filterMap_append
+    have hw' := hw
+    rw [hsplit] at hw'
+    have hw2 : fwd.filterMap toItem = [] := (List.append_eq_nil_iff.mp hw').2
+    refine ⟨l, dr.congr rfl rfl rfl rfl rfl rfl rfl rfl ?_ (by rw [List.filterMap_append, hemA]; simp) rfl rfl rfl rfl⟩
+    rw [hw2, hw]
+  · intro _ fwd w l dr
+    exact ⟨l, dr.congr rfl rfl rfl rfl rfl rfl (fun hal => by rw [hclosedA.2] at hal; cases hal) rfl rfl rfl rfl⟩
+
+end Penguin.Pair
+
+namespace Penguin.Pair
+open Penguin.Mux
+
+theorem completes_some {p : PS} {f : Frame} {z : Nat} (h : completes p f = some z) :
+    (∃ n, f = .acknowledge z n) ∧ (∃ req, lookup p.a.flows z = some (.requested req)) ∧
+    (∃ j, lookup p.b.flows z = some (.established j)) ∧
+    hasReset z (p.ab ++ p.a.outq) = false ∧ hasReset z (p.ba ++ p.b.outq) = false := by
+  cases f with
+  | acknowledge x n =>
+    simp only [completes] at h
+    split at h
+    · rename_i req j ha hb
+      split at h
+      · cases h
+      · rename_i hr
+        cases h
+        simp only [Bool.or_eq_true, not_or, Bool.not_eq_true] at hr
+        exact ⟨⟨n, rfl⟩, ⟨req, ha⟩, ⟨j, hb⟩, hr.1, hr.2⟩
+    · cases h
+  | _ => simp [completes] at h
+
+theorem noReset_of_hasReset (x : Nat) (l : List Msg) (h : hasReset x l = false) : noReset (fl x l) := by
+  intro m hm y' he
+  subst he
+  have hmem : Msg.frame (Frame.reset y') ∈ l := (List.mem_filter.mp hm).1
+  have hfl : isFl x (Msg.frame (Frame.reset y')) = true := (List.mem_filter.mp hm).2
+  have hy : y' = x := by simpa [isFl, Msg.flow?, Frame.id] using hfl
+  subst hy
+  have : hasReset y' l = true := by
+    simp only [hasReset, List.any_eq_true]
+    exact ⟨_, hmem, by simp⟩
+  rw [h] at this; cases this
+
+theorem Linked.has_objs {x : Nat} {va vb : EV} {fab fba : List Msg} (h : Linked x va vb fab fba) :
+    (∃ i o, va.objs i = some o) ∧ (∃ j o, vb.objs j = some o) := by
+  obtain ⟨i, j, oA, oB, h3, h4, _⟩ := h.body
+  exact ⟨⟨i, oA, h3⟩, ⟨j, oB, h4⟩⟩
+
+theorem inj_linked {x : Nat} {va vb : EV} {fab fba : List Msg} (h : Linked x va vb fab fba) : PhV x va vb fab fba :=
+  Or.inr (Or.inr (Or.inr (Or.inr (Or.inr (Or.inl h)))))
+
+/-- The receive loop processes one frame (not a `Bind`). -/
+theorem inv_recv {p : PS} (h : Inv p) (f : Frame) (rest : List Msg) (hba : p.ba = .frame f :: rest)
+    (hnb : ∀ a b c d, f ≠ .bind a b c d) :
+    Inv { p with a := (processFrame p.a f false).1, ba := rest,
+                 linked := match completes p f with | some x => x :: p.linked | none => p.linked } := by
   have hgf : ∀ {Y : Nat → Prop}, Eff Y p.a (processFrame p.a f false).1 → GhostFresh (processFrame p.a f false).1 p.ga :=
     fun s k hk => h.ghA k (Nat.le_trans s.len hk)
   cases hfl : Msg.flow? (.frame f) with
@@ -349,39 +706,126 @@ theorem inv_recv {p : PS} (h : Inv p) (f : Frame) (rest : List Msg) (hba : p.ba 
       cases f with
       | datagram fid port host d => exact processFrame_dgram_eff _ _ _ _ _ _
       | _ => simp [Msg.flow?] at hfl
-    exact inv_of_eff (g' := p.ga) (ba' := rest) h s (Or.inr ⟨_, hba, fun y hy => by rw [hfl] at hy; cases hy⟩)
-      (fun x _ => GhostAgree.refl x _ _) (hgf s) (fun x hx => absurd hx id)
+    have hc : completes p f = none := by
+      cases f with
+      | datagram fid port host d => rfl
+      | _ => simp [Msg.flow?] at hfl
+    rw [hc]
+    exact inv_of_eff (g' := p.ga) (ba' := rest) (lk' := p.linked) h s (Or.inr ⟨_, hba, fun y hy => by rw [hfl] at hy; cases hy⟩)
+      (fun x _ => GhostAgree.refl x _ _) (hgf s) (fun _ _ hh => hh) (fun x hx => absurd hx id)
   | some x =>
     have hid : f.id = x := (flow_eq hfl).symm
     have s := processFrame_eff p.a f false h.sfA
     rw [hid] at s
     refine inv_of_eff (g' := p.ga) (ba' := rest) h s (Or.inr ⟨_, hba, fun y hy => by rw [hfl] at hy; cases hy; rfl⟩)
-      (fun x _ => GhostAgree.refl x _ _) (hgf s) ?_
+      (fun x _ => GhostAgree.refl x _ _) (hgf s) ?_ ?_
+    · -- the recorded flows other than `x` are unchanged
+      intro z hz hzl
+      cases hc : completes p f with
+      | none => rw [hc] at hzl; exact hzl
+      | some w =>
+        rw [hc] at hzl
+        rcases List.mem_cons.mp hzl with h1 | h1
+        · obtain ⟨⟨n, hf⟩, _⟩ := completes_some hc
+          subst hf
+          have : w = x := by simpa [Frame.id] using hid
+          exact absurd (h1.trans this) hz
+        · exact h1
     intro x' hx'
     subst hx'
     have hhead : fl x' (pathBA p) = .frame f :: fl x' (rest ++ p.b.outq) := by
       show fl x' (p.ba ++ p.b.outq) = _
       rw [hba, List.cons_append, fl_cons]
       simp [isFl, hfl]
-    rcases h.phase x' with r | r | r | r | r | r | r
-    · have := r.fba; rw [hhead] at this; cases this
-    · have := r.fba; rw [hhead] at this; cases this
-    · obtain ⟨port, host, hc⟩ := r.fab
-      rw [hhead] at hc
-      have hf : f = .connect x' p.b.opts.rwnd port host := by
-        have := (List.cons.inj hc).1; simpa [ev] using this
-      subst hf
-      exact phase_connect h x' _ port host rest hba r
-    · obtain ⟨j, oP, rest', l, _, _, _, h4, _⟩ := r.body
-      rw [hhead] at h4
-      have hf : f = .acknowledge x' p.b.opts.rwnd := by
-        have := (List.cons.inj h4).1; simpa [ev] using this
-      subst hf
-      exact phase_ack h x' _ rest hba r
-    · have := r.fab; rw [hhead] at this; cases this
-    · exact phase_linked_recv h f x' hid hfl rest hba r
-    · have hnc : (Msg.frame f).isConnect = false := r.nba _ (by rw [hhead]; simp)
-      exact dead_step (hd := [.frame f]) r s (by rw [hhead]; rfl)
-        (fun hn => processFrame_none_stays p.a f false x' hn hid hnc)
+    have hhead' : fl x' (pathBA p) = [.frame f] ++ fl x' (rest ++ p.b.outq) := hhead
+    -- a live flow stays live
+    have live : Linked x' (ev x' p.a p.ga) (ev x' p.b p.gb) (fl x' (pathAB p)) (fl x' (pathBA p)) →
+        Linked x' (ev x' (processFrame p.a f false).1 p.ga) (ev x' p.b p.gb)
+          (fl x' (p.ab ++ (processFrame p.a f false).1.outq)) (fl x' (rest ++ p.b.outq)) := by
+      intro r
+      have hnc : (Msg.frame f).isConnect = false := r.nba _ (by rw [hhead]; simp)
+      obtain ⟨i, j, oA, oB, h3, h4, h5, h6, c1, c2, s1, s2, n1, n2, w1, w2, q1, q2, k1, k2⟩ := r.body
+      obtain ⟨ho, hfid⟩ := objView_some h3
+      rcases s1 with s1 | ⟨s1, f1, f2⟩
+      · have hs : lookup p.a.flows x' = some (.established i) := s1
+        rcases processFrame_est p.a f false x' i oA hs ho hid hnc h.runA.outClosed with
+          ⟨u, hf⟩ | ⟨d, hf, ha, hr, hroom, u⟩ | ⟨o', em, u, hcls⟩
+        · -- the peer's Reset: released
+          rw [hhead'] at r
+          refine linked_release (hd := [.frame f]) (em := []) r hs ho hfid ?_ u.rng u.opts u.others u.self
+            (by rw [u.outq]) (fun hh => by rw [u.dq] at hh; exact hh) (Or.inl rfl) ?_ rfl
+          · rw [u.flows]; exact lookup_erase_self _ _
+          · subst hf; exact RelCase.reset rfl rfl
+        · -- window overrun (never, between conforming endpoints)
+          rw [hhead'] at r
+          refine linked_release (hd := [.frame f]) r hs ho hfid ?_ u.rng u.opts u.others u.self
+            u.outq (fun hh => by rw [u.dq] at hh; exact hh) ?_ ?_ rfl
+          · rw [u.flows]; exact lookup_erase_self _ _
+          · cases hfs : oA.finishSent with
+            | true => left; simp
+            | false => right; simp
+          · subst hf
+            refine RelCase.overrun d rfl ha hr hroom ?_
+            intro hfs; simp [hfs]
+        · exact (live_recv_est (lk' := p.linked) h f x' i oA rest hid hfl hba hnb hs ho hfid
+            ⟨r.ra, r.rb, r.nab, r.nba, ⟨i, j, oA, oB, h3, h4, h5, h6, c1, c2, Or.inl s1, s2, n1, n2, w1, w2, q1, q2, k1, k2⟩⟩
+            o' em u hcls).2
+            ⟨r.ra, r.rb, r.nab, r.nba, ⟨i, j, oA, oB, h3, h4, h5, h6, c1, c2, Or.inl s1, s2, n1, n2, w1, w2, q1, q2, k1, k2⟩⟩
+      · have hs : lookup p.a.flows x' = none := s1
+        obtain ⟨em, u, hres⟩ := processFrame_none_local p.a f false x' i oA hs ho hid hnc hnb h.runA.outClosed
+        exact (live_recv_none (lk' := p.linked) h f x' i oA rest hid hfl hba hs ho hfid ⟨f1, f2⟩ em u hres).2
+          ⟨r.ra, r.rb, r.nab, r.nba, ⟨i, j, oA, oB, h3, h4, h5, h6, c1, c2, Or.inr ⟨s1, f1, f2⟩, s2, n1, n2, w1, w2, q1, q2, k1, k2⟩⟩
+    by_cases hL : Linked x' (ev x' p.a p.ga) (ev x' p.b p.gb) (fl x' (pathAB p)) (fl x' (pathBA p))
+    · exact ⟨inj_linked (live hL), fun _ => live hL⟩
+    · -- not live: a recorded flow would be live, so `x'` is recorded at most now
+      have hnew : ∀ {q : Prop}, (x' ∈ (match completes p f with | some x => x :: p.linked | none => p.linked)) →
+          (completes p f = some x' → q) → q := by
+        intro q hx hq
+        cases hc : completes p f with
+        | none => rw [hc] at hx; exact absurd (h.live x' hx) hL
+        | some w =>
+          rw [hc] at hx
+          rcases List.mem_cons.mp hx with h1 | h1
+          · subst h1; exact hq hc
+          · exact absurd (h.live x' h1) hL
+      rcases h.phase x' with r | r | r | r | r | r | r
+      · have := r.fba; rw [hhead] at this; cases this
+      · have := r.fba; rw [hhead] at this; cases this
+      · obtain ⟨port, host, hc⟩ := r.fab
+        rw [hhead] at hc
+        have hf : f = .connect x' p.b.opts.rwnd port host := by
+          have := (List.cons.inj hc).1; simpa [ev] using this
+        subst hf
+        refine ⟨phase_connect h x' _ port host rest hba r, fun hx => hnew hx (fun hc => ?_)⟩
+        simp [completes] at hc
+      · obtain ⟨j, oP, rest', l, _, _, _, h4, _⟩ := r.body
+        rw [hhead] at h4
+        have hf : f = .acknowledge x' p.b.opts.rwnd := by
+          have := (List.cons.inj h4).1; simpa [ev] using this
+        subst hf
+        have := phase_ack h x' _ rest hba r
+        exact ⟨inj_linked this, fun _ => this⟩
+      · have := r.fab; rw [hhead] at this; cases this
+      · exact absurd r hL
+      · have hnc : (Msg.frame f).isConnect = false := r.nba _ (by rw [hhead]; simp)
+        refine ⟨dead_step (hd := [.frame f]) r s (by rw [hhead]; rfl)
+          (fun hn => processFrame_none_stays p.a f false x' hn hid hnc) ?_, fun hx => hnew hx (fun hc => ?_)⟩
+        · -- the consumed message was a Reset: the slot (if any) is gone afterwards
+          intro hnr
+          have hf : f = .reset x' := by
+            cases f with
+            | reset y' => simp only [Frame.id] at hid; rw [hid]
+            | _ => exact absurd (by intro m hm y' he; simp at hm; subst hm; cases he) hnr
+          subst hf
+          simp only [processFrame]
+          exact closeFlow_slot_none _ _ _
+        · obtain ⟨_, ⟨req, ha⟩, ⟨j, hb⟩, hr1, hr2⟩ := completes_some hc
+          rcases r.gone with g | g | g | g
+          · have : lookup p.a.flows x' = none := g
+            rw [ha] at this; cases this
+          · have : lookup p.b.flows x' = none := g
+            rw [hb] at this; cases this
+          · exact absurd (noReset_of_hasReset x' _ hr1) g
+          · exact absurd (noReset_of_hasReset x' _ hr2) g
 
 end Penguin.Pair
